@@ -39,6 +39,8 @@ Inductive event :=
 | Clear (d : string)
 | ReadAll (d : string)                 (* iteration / keys / values / len / handing d to a user callback *)
 | Clock
+| Uninit (s : nat)                     (* storage from np.empty / np.empty_like that some path reads before every element
+                                          is written: its contents are whatever the allocator left there (hidden state) *)
 | Unknown (msg : string).
 
 Inductive cmd :=
@@ -212,6 +214,7 @@ Section Semantics.
         | CFresh => (FN, fr, st)
         end
     | Clock => (FN, fr, set_ck st (snd (clock (ck st))))
+    | Uninit s => (FN, fr, global_draw s st)             (* hidden state of the process: modelled as the global stream *)
     | Unknown _ => (FN, fr, global_draw 0 st)            (* not understood: worst case *)
     | Call _ _ _ _ _ | CallParam _ _ => (FN, fr, st)     (* handled by exec *)
     end.
@@ -480,6 +483,7 @@ Section Checker.
           | CFresh => ok
           end
       | Clock => ok
+      | Uninit s => bad "Uninit" (nats s)
       | Unknown m => bad "Unknown" m
       end.
 
@@ -689,6 +693,10 @@ Definition ex_api_readfirst : list fn := [ex_f_readfirst].
 (* a draw from a generator that was made from seed=None *)
 Definition ex_f_none : fn := mkfn "ex.f" true ["seed"] true [] [] []
   (Seq (Ev (MkGenNone "rand")) (Seq (Ev (DrawFrom 1 "rand")) Return)).
+
+(* storage from np.empty read before it is fully written *)
+Definition ex_f_uninit : fn := mkfn "ex.f" true ["seed"] true [] [] []
+  (Seq (Ev (MkGen "rand" "seed")) (Seq (Ev (Uninit 6)) (Seq (Ev (DrawFrom 1 "rand")) Return))).
 
 (* a concrete world: generator states and values are numbers; a draw returns the state and increments it *)
 Definition ex_world (g : nat) (m : option nat) : state nat nat :=
